@@ -319,11 +319,21 @@ func c15r4(c *Ctx) {
 	// the read side resolves duplicates
 	get := p.Func(pkgKubeCtl, "endpointSliceCache", "get")
 	dedupes := false
-	eachInstr(get, func(ins ssa.Instruction) {
-		if o := calleeObj(ins); o != nil && (o.Name() == "InsertContains" || o.Name() == "Contains") {
-			dedupes = true
-		}
-	})
+	var scanGet func(f *ssa.Function)
+	scanGet = func(f *ssa.Function) {
+		eachInstr(f, func(ins ssa.Instruction) {
+			if o := calleeObj(ins); o != nil && (o.Name() == "InsertContains" || o.Name() == "Contains") {
+				dedupes = true
+			}
+			// bodies of range-over-func loops and other literals of get
+			if mk, ok := ins.(*ssa.MakeClosure); ok {
+				if lit, ok := mk.Fn.(*ssa.Function); ok {
+					scanGet(lit)
+				}
+			}
+		})
+	}
+	scanGet(get)
 	c.Check("endpointSliceCache.get resolves duplicates across slices when reading", get.Pos(), dedupes, "get() concatenates the slices without de-duplicating endpoints listed by more than one slice")
 	c.Check("endpointSliceCache.update stores the slice", fn.Pos(), n >= 1, "no write of the per-slice entry found")
 	c.Floor(3)
